@@ -45,7 +45,7 @@ Section TriaGeom.
   Definition tet_avg_edge_length (v : V) (ts : list tet) : K := avg_edge_length_keys v (flat_map tet_sym1 ts).
 
   Definition guard_len (x : K) : K := if ltb o x (eps52 o) then one o else x.
-  (* ln[ln == 0] = 1 in tria_normals / vertex_normals (after fix 4785e9e: exact-zero test) *)
+  (* ln[ln == 0] = 1 in tria_normals / vertex_normals (after fixes 4785e9e and the relative test for vertex sums that followed) *)
   Definition guard_zero_len (x : K) : K := if eqb o x (zero o) then one o else x.
   Definition tria_normal (v : V) (t : tri) : vec3 K :=
     let '(p0, p1, p2) := tri_pts o v t in
@@ -70,7 +70,12 @@ Section TriaGeom.
     map (scatter3_at l) (iota n).
   Definition vertex_normals (n : nat) (v : V) (ts : list tri) : result (list (vec3 K)) :=
     if negb (is_oriented ts) then Err ValueError
-    else Ok (map (fun s => vdivs o s (guard_zero_len (norm o s))) (vertex_normal_sums n v ts)).
+    else
+      (* ln[ln <= eps * max(ln)] = 1: a sum of cross products that cancels to rounding level (relative to the longest one) is
+         left as it is, every other one is normalised -- in any length unit *)
+      let sums := vertex_normal_sums n v ts in
+      let mx := fold_left (fun m s => let l := norm o s in if ltb o m l then l else m) sums (zero o) in
+      Ok (map (fun s => let l := norm o s in vdivs o s (if ltb o (eps52 o * mx) l then l else one o)) sums).
 
   Definition tria_quality (v : V) (t : tri) : K :=
     let '(p0, p1, p2) := tri_pts o v t in
